@@ -41,7 +41,7 @@ COMPONENTS = {
              "generated InitInit / ConnectionPlayer / AccountReply server packets (real generator, documented layout) for a sample of outcomes"],
     "stub_or_harness": ["SimRandom (scripted random source)", "outcome-space enumerator"],
 }
-PROBES = ["components_through_generated_packet", "init_seq2_at_252", "init_seq2_at_0", "init_single_choice_range", "ping_seq2_at_251", "ping_value_max",
+PROBES = ["switch_field_given_as_plain_int", "components_through_generated_packet", "init_seq2_at_252", "init_seq2_at_0", "init_single_choice_range", "ping_seq2_at_251", "ping_value_max",
           "account_value_239", "init_value_0", "init_value_max"]
 FAULT_KINDS = ["scripted_draw"]
 EXHAUSTIVE = False  # set in coverage_extra when the sweep completed
@@ -73,16 +73,26 @@ def c12_tree():
     t["net/protocol.xml"] = _HDR + """<protocol>
     <enum name="PacketFamily" type="byte"><value name="Connection">1</value><value name="Account">2</value><value name="Init">255</value></enum>
     <enum name="PacketAction" type="byte"><value name="Player">1</value><value name="Reply">2</value><value name="Init">255</value></enum>
-    <enum name="InitReply" type="byte"><value name="Ok">2</value></enum>
+    <enum name="InitReply" type="byte"><value name="OutOfDate">1</value><value name="Ok">2</value><value name="Banned">3</value></enum>
     <enum name="AccountReply" type="short"><value name="Exists">1</value><value name="NotApproved">2</value><value name="Created">3</value></enum>
 </protocol>
 """
     t["net/server/protocol.xml"] = _HDR + """<protocol>
     <packet family="Init" action="Init">
         <field name="reply_code" type="InitReply"/>
-        <field name="seq1" type="byte"/>
-        <field name="seq2" type="byte"/>
-        <field name="player_id" type="short"/>
+        <switch field="reply_code">
+            <case value="OutOfDate">
+                <field name="version" type="char"/>
+            </case>
+            <case value="Ok">
+                <field name="seq1" type="byte"/>
+                <field name="seq2" type="byte"/>
+                <field name="player_id" type="short"/>
+            </case>
+            <case value="Banned">
+                <field name="ban_type" type="byte"/>
+            </case>
+        </switch>
     </packet>
     <packet family="Connection" action="Player">
         <field name="seq1" type="short"/>
@@ -128,7 +138,20 @@ class _Ctx:
         self.res.count("probe.components_through_generated_packet")
         try:
             if gen == "init":
-                pkt = self.srv.InitInitServerPacket(reply_code=self.net.InitReply(2), seq1=comps[0], seq2=comps[1], player_id=777)
+                # as documented: the components travel in the case of reply code Ok
+                P = self.srv.InitInitServerPacket
+                data = P.ReplyCodeDataOk(seq1=comps[0], seq2=comps[1], player_id=777)
+                pkt = None
+                if (comps[0] + comps[1]) % 2:
+                    # the application names the reply code by its number (the enum members ARE integers); where the
+                    # constructor refuses that, the member is passed after all
+                    try:
+                        pkt = P(reply_code=2, reply_code_data=data)
+                        self.res.count("probe.switch_field_given_as_plain_int")
+                    except (TypeError, ValueError):
+                        pkt = None
+                if pkt is None:
+                    pkt = P(reply_code=self.net.InitReply(2), reply_code_data=data)
                 want = bytes([2, comps[0], comps[1]]) + encode_number(777, 2)
             elif gen == "ping":
                 pkt = self.srv.ConnectionPlayerServerPacket(seq1=comps[0], seq2=comps[1])
@@ -147,7 +170,8 @@ class _Ctx:
                                             f"layout gives {want.hex()}")
                 return None
             back = type(pkt).deserialize(self.R(want))
-            out = ((back.seq1, back.seq2) if gen != "account" else (back.reply_code_data.sequence_start,))
+            out = ((back.reply_code_data.seq1, back.reply_code_data.seq2) if gen == "init" else
+                   (back.seq1, back.seq2) if gen == "ping" else (back.reply_code_data.sequence_start,))
         except Exception as e:  # noqa
             self.fail("wire-trip", gen, f"{gen} components {comps} through the generated packet: {type(e).__name__}: {e}")
             return None
